@@ -296,6 +296,14 @@ pub fn scenario(g: &mut G, ctx: &RunCtx) -> RunReport {
                         };
                         parts.push(e);
                     }
+                    // (no draw) two fields written with a blank instead of a comma between them are one entry (one
+                    // that names no host): NO_PROXY is a comma-separated list
+                    if parts.len() >= 2 && (hs.len() + parts.len()) % 3 == 0 {
+                        let b = parts.pop().unwrap();
+                        let a = parts.pop().unwrap();
+                        parts.push(format!("{} {}", a.trim(), b.trim()));
+                        g.probe("no-proxy-fields-separated-by-a-blank");
+                    }
                     Some(parts.join(","))
                 }
             }
